@@ -49,7 +49,7 @@ CHECKS["C03"] = dict(
     level_note="One rule (equality matchers, one equal label), 5 sources, ends +2m/+10m, advances 1m/5m/16m. The 15m source-cache GC ticker is replaced by an explicit GC event (same function). Instants where an end equals now are not judged.",
     assumptions=E1_ASSUME + ["ground truth = alerts held by the real provider whose end is in the future"],
     units=[dict(pkg="inhibit", test="TestVerifC03", shards_quick=16, shards_thorough=16, budget_quick=60, budget_thorough=900),
-           dict(pkg="app", test="TestVerifC03App", shards_quick=16, shards_thorough=16, budget_quick=100, budget_thorough=1200)],
+           dict(pkg="app", test="TestVerifC03App", shards_quick=16, shards_thorough=16, budget_quick=200, budget_thorough=1200)],
 )
 
 CHECKS["C02"] = dict(
@@ -62,7 +62,7 @@ CHECKS["C02"] = dict(
     assumptions=E1_ASSUME,
     units=[dict(pkg="silence", test="TestVerifC02Obj", shards_quick=12, shards_thorough=16, budget_quick=90, budget_thorough=1200),
            dict(pkg="silence", test="TestVerifC02Sched", gomaxprocs=1, shards_quick=4, shards_thorough=16, budget_quick=60, budget_thorough=900),
-           dict(pkg="app", test="TestVerifC02App", shards_quick=16, shards_thorough=16, budget_quick=100, budget_thorough=1200)],
+           dict(pkg="app", test="TestVerifC02App", shards_quick=16, shards_thorough=16, budget_quick=200, budget_thorough=1200)],
 )
 
 CHECKS["C12"] = dict(
@@ -111,7 +111,7 @@ CHECKS["C01"] = dict(
     level_text="Every history is executed on the fully assembled real instance (provider, dispatcher, inhibitor, silencer, dedup, retry, nflog, API). Monitors: eligible+accepting for longer than B => successful notification listing the alert firing by B and never omitted for longer than B afterwards; retry law inside a flush; C04 and C05 monitors run as well.",
     level_note="B = max(group_wait, group_interval) + 20s slack (hang 8s + largest backoff gap). One route shape here; routing shapes are C07's, cluster wait C08's.",
     assumptions=FAPP_ASSUME,
-    units=[dict(pkg="app", test="TestVerifC01App", shards_quick=12, shards_thorough=16, budget_quick=100, budget_thorough=1500),
+    units=[dict(pkg="app", test="TestVerifC01App", shards_quick=12, shards_thorough=16, budget_quick=200, budget_thorough=1500),
            dict(pkg="dispatch", test="TestVerifC01Sched", gomaxprocs=1, shards_quick=4, shards_thorough=16, budget_quick=60, budget_thorough=1500)],
 )
 CHECKS["C04"] = dict(
@@ -122,7 +122,7 @@ CHECKS["C04"] = dict(
     level_text="Per (group, integration) every successful notification must be justified w.r.t. the previous one (new firing alert, newly resolved alert with send_resolved, > repeat_interval, or a quiet moment in between); an unchanged firing group is re-notified by repeat_interval + group_interval + slack; a notification without firing alerts directly follows one with firing alerts. Restart and reload are ordinary events (real snapshot files).",
     level_note="repeat_interval 2m, group_interval 30s, retention 10m; two integrations (send_resolved true/false).",
     assumptions=FAPP_ASSUME,
-    units=[dict(pkg="app", test="TestVerifC04App", shards_quick=16, shards_thorough=16, budget_quick=100, budget_thorough=1500)],
+    units=[dict(pkg="app", test="TestVerifC04App", shards_quick=16, shards_thorough=16, budget_quick=200, budget_thorough=1500)],
 )
 CHECKS["C05"] = dict(
     level="model_checking",
@@ -132,7 +132,7 @@ CHECKS["C05"] = dict(
     level_text="No payload lists an alert resolved while the submitted timeline says it fires; send_resolved=false integrations never receive resolved alerts; an alert told firing that ends (explicitly or by timeout) is told resolved within B unless it re-fired; a group that resolved entirely inside group_wait sends nothing; re-fire during an in-flight (hanging) resolved delivery is reported firing at the next flush (C01 monitor).",
     level_note="Ends are explicit (now) or heartbeat timeouts (resolve_timeout 1m); merge tie-breaks are C13's subject.",
     assumptions=FAPP_ASSUME,
-    units=[dict(pkg="app", test="TestVerifC05App", shards_quick=12, shards_thorough=16, budget_quick=100, budget_thorough=1500),
+    units=[dict(pkg="app", test="TestVerifC05App", shards_quick=12, shards_thorough=16, budget_quick=200, budget_thorough=1500),
            dict(pkg="dispatch", test="TestVerifC05Sched", gomaxprocs=1, shards_quick=4, shards_thorough=16, budget_quick=60, budget_thorough=1500)],
 )
 
@@ -144,7 +144,7 @@ CHECKS["C13"] = dict(
     level_text="After every event GET /api/v2/alerts is compared with a reference written from the statement and docs/alerts_api.md: start/end defaults, timeout end pushed forward by re-sends, earliest start kept on overlap, explicit past end resolves immediately, every valid alert of a batch stored although the answer is 400, exactly the unexpired alerts are returned (never collected while unresolved), receivers per the routing tree, suppression status, filter consistency.",
     level_note="resolve_timeout 1m, alert GC 45s. End == now is not judged. Merge tie-breaks not fixed by the statement are compared as allowed sets and collapsed to the observed value.",
     assumptions=FAPP_ASSUME,
-    units=[dict(pkg="app", test="TestVerifC13", shards_quick=16, shards_thorough=16, budget_quick=100, budget_thorough=1500)],
+    units=[dict(pkg="app", test="TestVerifC13", shards_quick=16, shards_thorough=16, budget_quick=200, budget_thorough=1500)],
 )
 
 CHECKS["C06"] = dict(
@@ -155,7 +155,7 @@ CHECKS["C06"] = dict(
     level_text="Every notification carries alerts of exactly one route and one group-label assignment (group key and labels recomputed by hand from the config), lists every alert of that group firing since before the flush tick (never a delta), one key is never served by two live aggregation groups, GET /alerts/groups equals the partition, a re-created group waits a fresh group_wait; group keys are stable across reload and restart.",
     level_note="7 alerts, 4 routes, labels a,b in {absent,1,2}. Group keys are compared as exact strings recomputed independently.",
     assumptions=FAPP_ASSUME,
-    units=[dict(pkg="app", test="TestVerifC06App", shards_quick=12, shards_thorough=16, budget_quick=100, budget_thorough=1500),
+    units=[dict(pkg="app", test="TestVerifC06App", shards_quick=12, shards_thorough=16, budget_quick=200, budget_thorough=1500),
            dict(pkg="dispatch", test="TestVerifC06Sched", gomaxprocs=1, shards_quick=4, shards_thorough=16, budget_quick=60, budget_thorough=1500)],
 )
 
@@ -169,7 +169,7 @@ CHECKS["C07"] = dict(
     level_text="The selected route list equals the depth-first / first-match-unless-continue / self-only-if-no-child rule for every tree and label set; inherited receiver, group_by (incl. [], '...', re-override), group_wait/interval/repeat and merged labels equal a field-by-field reference; mute/active time intervals are exactly the route's own; the result is never empty.",
     level_note="amtool's routing test and the API receivers field call the same Route.Match (agreement by construction; the API field is compared with hand-written expectations in C13/C06).",
     assumptions=E4_ASSUME,
-    units=[dict(pkg="dispatch", test="TestVerifC07", shards_quick=16, shards_thorough=16, budget_quick=100, budget_thorough=1500)],
+    units=[dict(pkg="dispatch", test="TestVerifC07", shards_quick=16, shards_thorough=16, budget_quick=200, budget_thorough=1500)],
 )
 
 CHECKS["C16"] = dict(
@@ -180,7 +180,7 @@ CHECKS["C16"] = dict(
     level_text="No input makes a parser panic or hang (watchdog); the fallback result is the classic one on disagreement, the common one otherwise, classic-only inputs are accepted; every printable matcher parses back to the identical (type, name, value) in UTF-8 and fallback mode and in classic mode for classic names; Matchers.Matches / MatcherSet.Matches equal the reference (missing label = empty, whole-string compare, fully anchored regex).",
     level_note="Strings longer than the bound and symbols outside the alphabet are not explored. The singular entry points reject a leading '{' or trailing '}' by design; those prints are checked through the list form.",
     assumptions=E4_ASSUME,
-    units=[dict(pkg="matcher/compat", test="TestVerifC16", shards_quick=16, shards_thorough=16, budget_quick=100, budget_thorough=1500)],
+    units=[dict(pkg="matcher/compat", test="TestVerifC16", shards_quick=16, shards_thorough=16, budget_quick=200, budget_thorough=1500)],
 )
 
 CHECKS["C15"] = dict(
@@ -191,8 +191,8 @@ CHECKS["C15"] = dict(
     level_text="ContainsTime equals own civil-date arithmetic (days-from-epoch algorithm, own month lengths / leap years; only the zone offset is taken from package time) for every spec and instant: start-inclusive/end-exclusive minutes, inclusive weekday/day/month/year ranges, negative days from the month's end, ranges beyond the month, leap day, DST transitions in both directions, half-hour zones, a skipped civil day; every accepted spec re-marshals to the same value. Gating on the real App: no delivery at muted flush ticks, deliveries at unmuted ones, mutedBy names in GET /alerts/groups.",
     level_note="'Empty field' = field absent. Instants outside the grids and zones outside the seven listed are not explored.",
     assumptions=E4_ASSUME + ["zone offsets come from the tz database shipped in the image (/usr/share/zoneinfo)"],
-    units=[dict(pkg="timeinterval", test="TestVerifC15", shards_quick=16, shards_thorough=16, budget_quick=100, budget_thorough=1500),
-           dict(pkg="app", test="TestVerifC15App", shards_quick=16, shards_thorough=16, budget_quick=100, budget_thorough=1500)],
+    units=[dict(pkg="timeinterval", test="TestVerifC15", shards_quick=16, shards_thorough=16, budget_quick=200, budget_thorough=1500),
+           dict(pkg="app", test="TestVerifC15App", shards_quick=16, shards_thorough=16, budget_quick=200, budget_thorough=1500)],
 )
 
 CHECKS["C17"] = dict(
@@ -203,8 +203,8 @@ CHECKS["C17"] = dict(
     level_text="config.Load never panics or hangs on any member of the families; every configuration it accepts satisfies the statement's well-formedness list (checked on the loaded structure: root receiver and no matchers/intervals, defined receivers and intervals, unique names incl. across mute_time_intervals/time_intervals, group_by without duplicates or '...'+labels, non-zero intervals, no nil route); String() prints no secret (every secret-typed field set to a sentinel; the list of secret-typed fields is pinned) and secret-free configurations load back to the same routing tree, inhibit rules and intervals; a rejected reload leaves the running configuration in force.",
     level_note="'Any byte string' is covered through these closed families only. The pinned list of secret paths is /verif/harness/config/secret_paths.golden (generated from the pinned tree).",
     assumptions=E4_ASSUME,
-    units=[dict(pkg="config", test="TestVerifC17", shards_quick=8, shards_thorough=16, budget_quick=100, budget_thorough=1500),
-           dict(pkg="app", test="TestVerifC17App", shards_quick=8, shards_thorough=16, budget_quick=100, budget_thorough=1500)],
+    units=[dict(pkg="config", test="TestVerifC17", shards_quick=8, shards_thorough=16, budget_quick=200, budget_thorough=1500),
+           dict(pkg="app", test="TestVerifC17App", shards_quick=8, shards_thorough=16, budget_quick=200, budget_thorough=1500)],
 )
 
 CHECKS["C20"] = dict(
@@ -215,7 +215,7 @@ CHECKS["C20"] = dict(
     level_text="Retry law (next attempt exactly one backoff step after each recoverable failure while the deadline allows, none after ok / unrecoverable), flush reports failure iff an integration had no success, the notification log holds an entry for exactly the integrations that succeeded and never stamped before the success, a failing sibling changes nothing for the other integration; a crash at any boundary followed by a restart from the log image never yields zero deliveries and a completed flush is not repeated; truncation never panics, never exceeds the limit, never splits a character and returns a prefix plus marker.",
     level_note="Backoff jitter is removed by the overlay (exact instants). The crash model is process kill at the listed boundaries with the nflog content of that instant (file-level crash consistency is C11).",
     assumptions=E1_ASSUME,
-    units=[dict(pkg="notify", test="TestVerifC20", shards_quick=16, shards_thorough=16, budget_quick=100, budget_thorough=1500),
+    units=[dict(pkg="notify", test="TestVerifC20", shards_quick=16, shards_thorough=16, budget_quick=200, budget_thorough=1500),
            dict(pkg="notify/webhook", test="TestVerifC20Payload", shards_quick=1, shards_thorough=1, budget_quick=60, budget_thorough=120)],
 )
 
@@ -227,8 +227,8 @@ CHECKS["C11"] = dict(
     level_text="For silences and the notification log independently: on every crash image the loader starts without error and loads exactly the state captured by the snapshot that the durable renames make visible (never torn, partial or mixed); a leftover temp file never corrupts a later snapshot; every byte prefix of a snapshot decodes to an error or exactly the wholly contained records; no byte substitution makes the loader panic; snapshot -> load reproduces every entry (multiple matcher sets, annotations, receiver data, legacy shapes).",
     level_note="Power-loss model: ordered namespace journal, unsynced data lost from any point, rename may be durable before data. Durability of the rename itself is not demanded (the code never fsyncs the directory): an earlier complete snapshot is accepted when later renames are lost.",
     assumptions=["the vfs shim (overlay: os -> vfs in silence.go and nflog.go) implements create/truncate/write-at-offset/sync/rename/remove faithfully", "firmware that lies about flushes, bit rot and directory-entry reordering are out of scope"],
-    units=[dict(pkg="silence", test="TestVerifC11Silences", shards_quick=8, shards_thorough=16, budget_quick=100, budget_thorough=1500),
-           dict(pkg="nflog", test="TestVerifC11Nflog", shards_quick=8, shards_thorough=16, budget_quick=100, budget_thorough=1500)],
+    units=[dict(pkg="silence", test="TestVerifC11Silences", shards_quick=8, shards_thorough=16, budget_quick=200, budget_thorough=1500),
+           dict(pkg="nflog", test="TestVerifC11Nflog", shards_quick=8, shards_thorough=16, budget_quick=200, budget_thorough=1500)],
 )
 
 CHECKS["C19"] = dict(
@@ -239,8 +239,8 @@ CHECKS["C19"] = dict(
     level_text="After every event no node has lost or regressed an update, holds only updates some node made, and garbage (truncated, bit-flipped, unknown key, empty, malformed part inside a full state) changes nothing and does not block the valid parts; in the closing phase every fresh update (small by gossip, oversized by reliable send) reaches every connected node without push/pull, and after push/pull every node - including a late joiner - holds everything.",
     level_note="memberlist is replaced by the harness in this part: Peer.AddState's closures are restated in harness/cluster/busnode.go (send is identical; peers/sendOversize are injected). The mesh part (C08/C19-mesh) runs the real memberlist and the real AddState.",
     assumptions=E1_ASSUME,
-    units=[dict(pkg="app", test="TestVerifC19Bus", shards_quick=8, shards_thorough=16, budget_quick=100, budget_thorough=1500),
-           dict(pkg="app", test="TestVerifC19Mesh", shards_quick=8, shards_thorough=16, budget_quick=100, budget_thorough=1500)],
+    units=[dict(pkg="app", test="TestVerifC19Bus", shards_quick=8, shards_thorough=16, budget_quick=200, budget_thorough=1500),
+           dict(pkg="app", test="TestVerifC19Mesh", shards_quick=8, shards_thorough=16, budget_quick=200, budget_thorough=1500)],
 )
 
 CHECKS["C08"] = dict(
@@ -251,5 +251,5 @@ CHECKS["C08"] = dict(
     level_text="At least once: the C01/C05 obligations hold on the union of what the non-crashed instances (and crashed ones before their crash) delivered, under every explored pattern of partitions, isolation and crashes, as long as one instance stays up. No duplicates when healthy: with all links up and no crash every notification in the union is justified w.r.t. the previous one (C04 monitor on the union) and only the first-positioned instance sends.",
     level_note="memberlist's own random choices (peer selection order, probe targets) are not enumerated: with <= 3 members every gossip round addresses all others; faults are link-level per phase, not per packet. peer_timeout 5s, gossip interval 500ms, bounds extended by (N-1) x peer_timeout + 30s settle slack.",
     assumptions=FAPP_ASSUME + ["instances share one virtual clock (agreeing clocks, as the property assumes)", "a crash is modelled as: all links dead for good and later deliveries discarded; the process is stopped for real only at tear-down"],
-    units=[dict(pkg="app", test="TestVerifC08", shards_quick=16, shards_thorough=16, budget_quick=150, budget_thorough=1800)],
+    units=[dict(pkg="app", test="TestVerifC08", shards_quick=16, shards_thorough=16, budget_quick=240, budget_thorough=1800)],
 )
